@@ -154,6 +154,52 @@ def deref_operand(du, op):
     return None
 
 
+def through_deref(du, p):
+    """`(*r)` with r = &place (a by-reference match binding): the place itself; other places unchanged"""
+    for _ in range(4):
+        if len(p["p"]) >= 1 and p["p"][0]["k"] == "deref":
+            d = du.sole_def(p["l"])
+            if d is not None and d[2] == "assign" and d[3]["rv"]["k"] == "ref" and not any(e["k"] == "index" for e in d[3]["rv"]["place"]["p"]):
+                src = d[3]["rv"]["place"]
+                p = {"l": src["l"], "p": list(src["p"]) + list(p["p"][1:])}
+                continue
+        break
+    return p
+
+
+OPTION_PAYLOAD_ADAPTORS = {"map": 1, "and_then": 1, "is_some_and": 1, "map_or": 2, "map_or_else": 2}
+
+
+def closure_param_source(F, f):
+    """a closure handed to Option::map / and_then / map_or.. in its parent receives the Some payload of the receiver:
+    returns (parent, du, operand denoting `(receiver as Some).0`) or None"""
+    if F is None or not f.is_closure:
+        return None
+    parent = F.fn(f.parent, required=False)
+    if parent is None or not parent.mir:
+        return None
+    du = DefUse(parent)
+    mine = [st["place"]["l"] for b in parent.blocks for st in b["stmts"]
+            if st["k"] == "assign" and not st["place"]["p"] and st["rv"]["k"] == "agg" and short(st["rv"]["agg"].get("path", "")) == f.short]
+    for _bi, t in mu.calls(parent):
+        nm = callee_names(t["func"])
+        last = nm[0].rsplit("::", 1)[-1] if nm else ""
+        pos = OPTION_PAYLOAD_ADAPTORS.get(last)
+        if pos is None or not any("Option::" + last in n for n in nm) or len(t["args"]) <= pos:
+            continue
+        c = op_local(t["args"][pos])
+        seen = set()
+        while c is not None and c not in mine and c not in seen:
+            seen.add(c)
+            d = du.sole_def(c)
+            c = op_local(d[3]["rv"]["op"]) if d is not None and d[2] == "assign" and d[3]["rv"]["k"] == "use" else None
+        recv = op_local(t["args"][0])
+        if c is None or c not in mine or recv is None:
+            continue
+        return parent, du, {"k": "copy", "place": {"l": recv, "p": [{"k": "downcast", "variant": "Some"}, {"k": "field", "name": "0"}]}}
+    return None
+
+
 def lin_of(fn, du, op, cfgd, depth=0):
     """linear form of an operand w.r.t. height field / bound"""
     h, bound = cfgd["height"], cfgd["bound"]
@@ -165,6 +211,7 @@ def lin_of(fn, du, op, cfgd, depth=0):
     p = op_place(op)
     if p is None or depth > 10:
         return Lin(("other", id(op)))
+    p = through_deref(du, p)
     names = field_names_of_place(fn, du, p)
     meaningful = [n for n in names if n not in ("0", "1", "pointer")]
     if meaningful[-1:] == [h]:
@@ -175,6 +222,10 @@ def lin_of(fn, du, op, cfgd, depth=0):
         return Lin(("other", str(names)))
     d = du.sole_def(p["l"])
     if d is None:
+        if fn.is_closure and p["l"] == 2 and not p["p"] and not du.defs.get(2):
+            src = closure_param_source(cfgd.get("F"), fn)
+            if src is not None:
+                return lin_of(src[0], src[1], src[2], cfgd, depth + 1)
         return Lin(("other", "multi%d" % p["l"]))
     if d[2] == "call":
         t = d[3]
@@ -249,6 +300,7 @@ CMP = {"Lt": lambda a, b: a < b, "Le": lambda a, b: a <= b, "Gt": lambda a, b: a
 ORD_VALUE = {255: -1, -1: -1, 0: 0, 1: 1, 18446744073709551615: -1}
 ORD_REL = {frozenset([-1]): "Lt", frozenset([0]): "Eq", frozenset([1]): "Gt", frozenset([-1, 0]): "Le", frozenset([0, 1]): "Ge",
            frozenset([-1, 1]): "Ne"}
+UNSIGNED_TYPES = ("usize", "u8", "u16", "u32", "u64", "u128")
 INT_TYPES = ("usize", "u8", "u16", "u32", "u64", "u128", "isize", "i8", "i16", "i32", "i64", "i128")
 METHOD_CMP = {"lt": "Lt", "le": "Le", "gt": "Gt", "ge": "Ge", "eq": "Eq", "ne": "Ne"}
 
@@ -474,6 +526,7 @@ def aff_of(fn, du, op, cfgd, depth=0, side=None):
     p = op_place(op)
     if p is None or depth > 12:
         return None
+    p = through_deref(du, p)
     names = [n for n in field_names_of_place(fn, du, p) if n not in ("0", "1", "pointer")]
     if names[-1:] == [cfgd["height"]]:
         return {"h": 1}
@@ -521,6 +574,11 @@ def aff_of(fn, du, op, cfgd, depth=0, side=None):
         return {var: 1}
     d = du.sole_def(l)
     if d is None:
+        whole = [x for x in du.defs.get(l, []) if not x[3].get("place", x[3].get("dest"))["p"]]
+        if side is not None and not p["p"] and len(whole) >= 2 and fn.local_ty(l) in UNSIGNED_TYPES:
+            # a re-assigned unsigned local (a hand-written loop counter): an unknown >= 0; only guards between which and
+            # the use it is not re-assigned may speak about it (aff_guards checks that)
+            return {"v%d" % l: 1}
         return None
     if d[2] == "call":
         t = d[3]
@@ -563,12 +621,31 @@ def aff_of(fn, du, op, cfgd, depth=0, side=None):
 
 def aff_guards(fn, du, block, cfgd, side=None):
     out = []
-    for op, l, r, truth, _g in cond_guards(fn, du, block):
+    for op, l, r, truth, g in cond_guards(fn, du, block):
         a = aff_of(fn, du, l, cfgd, side=side)
         b = aff_of(fn, du, r, cfgd, side=side)
         if a is not None and b is not None:
-            out.append((op, a, b, truth))
+            vs = [int(k[1:]) for k in list(a) + list(b) if isinstance(k, str) and k.startswith("v") and k[1:].isdigit()]
+            if all(unchanged_between(fn, du, v, g, block) for v in vs):
+                out.append((op, a, b, truth))
     return out
+
+
+def unchanged_between(fn, du, l, g, b):
+    """is local l never re-assigned between its test in guard block g and its use in block b (g dominates b)?"""
+    cfg = fn.cfg
+    after_g = set()
+    for s_ in cfg.succ[g]:
+        after_g |= cfg.reachable_from(s_, avoid={g})
+    for d in du.defs.get(l, []):
+        if d[3].get("place", d[3].get("dest"))["p"]:
+            continue
+        bd = d[0]
+        if bd == g or bd == b:
+            return False
+        if bd in after_g and b in cfg.reachable_from(bd, avoid={g}):
+            return False
+    return True
 
 
 def aff_eval(a, env):
@@ -1074,6 +1151,10 @@ def rule_n(F):
                     good, cex = aff_implied(aff_guards(f, du, bi, cfgd, side=side) + side, aff)
                     if good:
                         res.append(ok("C14.N", key, loc, "index %s%s is below the height in every state the guards admit" % (aff, via)))
+                    elif any(isinstance(k_, str) and k_.startswith("v") for k_ in aff):
+                        n -= 1
+                        res.append(undecided("C14.N", key, loc, "index of the slot read%s is a re-assigned local whose bound by the guards is "
+                                             "not established" % via))
                     else:
                         res.append(bad("C14.N", key, loc, "ValueStack::%s reads slot `%s`%s which can be at or beyond the height (%s): a stale value "
                                        "is returned where nil is due" % (fname, aff_text(f, aff), via, state_text(f, cex))))
@@ -1164,7 +1245,7 @@ def yields_at_most_height(F, f, du, op, cfgd, depth=0):
     return False
 
 
-def live_subslice(F, f, du, op, cfgd):
+def live_subslice(F, f, du, op, cfgd, depth=0):
     """is the operand (a reborrow of) `storage[a..b]` / get(a..b) with b at or below the height?"""
     l = op_local(op)
     seen = set()
@@ -1178,6 +1259,15 @@ def live_subslice(F, f, du, op, cfgd):
             nm = callee_names(t["func"])
             last = nm[0].rsplit("::", 1)[-1] if nm else ""
             a0 = op_local(t["args"][0]) if t["args"] else None
+            if len(t["args"]) == 1 and depth < 3 and (t["func"].get("local") or t["func"].get("resolved_local")) and is_self_arg(f, du, t["args"][0], cfgd):
+                # the result of a `&self` method of the same stack (as_slice()): judged in that method
+                mine = set(id(x) for x in stack_fns(F, cfgd["adt"]))
+                for x in nm:
+                    g = F.fn(x, required=False)
+                    if g is not None and g.mir and not g.is_closure and g.mir["arg_count"] == 1 and id(g) in mine and g is not f \
+                            and g.mir["locals"][1]["ty"].startswith("&") and not g.mir["locals"][1]["ty"].startswith("&mut"):
+                        return live_subslice(F, g, DefUse(g), {"k": "copy", "place": {"l": 0, "p": []}}, cfgd, depth + 1)
+                return False
             if last not in S_ELEMENT or len(t["args"]) != 2 or a0 is None or storage_kind(F, f, du, a0, cfgd) != "S":
                 return False
             r = range_end(f, du, t["args"][1], ((t.get("arg_tys") or ["", ""]) + [""])[1])
@@ -1410,6 +1500,9 @@ def rule_b(F):
                         good, cex = aff_implied(aff_guards(f, du, bi, cfgd, side=side) + side, aff, pred=lambda v, h, L: 0 <= v < L)
                         if good:
                             res.append(ok("C14.B", key, loc, "unchecked index %s is within the storage in every state the guards admit" % aff))
+                        elif any(isinstance(k_, str) and k_.startswith("v") for k_ in aff):
+                            res.append(undecided("C14.B", key, loc, "unchecked index is a re-assigned local whose bound by the guards is not "
+                                                 "established"))
                         else:
                             res.append(bad("C14.B", key, loc, "%s::%s indexes the storage unchecked at %s, which can lie outside it (%s)"
                                            % (sname, fname, aff_text(f, aff), state_text(f, cex))))
